@@ -282,7 +282,13 @@ pub fn dec_plan(prop: &str, tier: Tier) -> Vec<DecPlanItem> {
 pub fn dec_oracles(prop: &str, tier: Tier) -> Oracles {
     let mut or = Oracles::default();
     match prop {
-        "C01" | "C02" => or.conform = true,
+        "C01" => or.conform = true,
+        "C02" => {
+            or.conform = true;
+            // "the same had-errors answer": every call's flag is right
+            or.flags = true;
+            or.flags_prop = "C02";
+        }
         "C05" => {
             or.wellformed = true;
             or.adversarial_str = true;
@@ -304,6 +310,7 @@ pub fn dec_oracles(prop: &str, tier: Tier) -> Oracles {
         "C09" => {
             or.flags = true;
             or.twin = true;
+            or.submin = true;
         }
         "C10" => {
             or.conform = true;
@@ -383,7 +390,12 @@ pub fn enc_plan(prop: &str, tier: Tier) -> Vec<EncPlanItem> {
 pub fn enc_oracles(prop: &str) -> EOracles {
     let mut or = EOracles::default();
     match prop {
-        "C03" | "C04" => or.conform = true,
+        "C03" => or.conform = true,
+        "C04" => {
+            or.conform = true;
+            or.flags = true;
+            or.flags_prop = "C04";
+        }
         "C06" => {
             or.contract = true;
             or.submin = true;
@@ -400,6 +412,8 @@ pub fn enc_oracles(prop: &str) -> EOracles {
         "C09" => {
             or.flags = true;
             or.twin = true;
+            // the property does not restrict capacities: include the sub-minimum ones
+            or.submin = true;
         }
         "C12" => or.decode_back = true,
         "C18" => or.prefill3 = true,
